@@ -261,11 +261,21 @@ def oracle_queries(case_lines, out_lines, prec):
             live = []
         elif t[0] == "I":
             if res.startswith("I code=0") and " refact " in res:
-                pass            # arrays unchanged
+                # arrays unchanged; the tail (work arrays of the previous factorization) is reclaimed by this MemInit
+                live = []
+                if lwork is not None and len(t) > 8 and int(t[8]) > 0 and int(t[8]) != lwork:
+                    # a re-factorization must be given the workspace that holds L and U: another lwork is outside the contract
+                    # (the block oracle is not evaluated on what follows; model and C are still compared)
+                    lwork = None; glu = []
+                    continue
             else:
                 glu, live = [], []
             if len(t) > 8 and int(t[8]) > 0:
                 lwork = int(t[8])
+            if not res.startswith("I code=0"):
+                # MemInit FAILED: p?gstrf returns at once, no caller goes on to p?gstrf_WorkInit with the half-built stack of
+                # a failed MemInit; the block oracle is not evaluated on such a continuation (model and C are still compared)
+                lwork = None
         elif t[0] == "W" and res.startswith("W ret=0") and lwork and lwork > 0:
             d = kv(res)
             n = int(t[1]); w = int(t[2])
@@ -363,6 +373,8 @@ def check_fn_batch(ctx, tools, prec, cases, fault, stats):
                     defect = "meminit_retry_overfree" if any(re.search(r"retries=[1-9]", c) for c in com) else "meminit_unchecked_int_arrays"
                 elif any(l.startswith("RK") for l in lines):
                     defect = "workfree_resets_live_tail"
+                    if os.environ.get("VERIF_DEBUG_C14"):
+                        ctx.log("DEBUG workfree case: " + " | ".join(lines) + " || C: " + " | ".join(co))
                 else:
                     defect = "workinit_align_overlap"
             key = {"kind": "user_workspace", "defect": defect, "prec": PCH[prec]}
@@ -515,7 +527,7 @@ def drv_workspace_sweep(ctx, tools, rng, prec, stats, flavor="hooks"):
         if rng.random() < 0.3:
             env[8] = rng.choice([-2, -3, -30])
             env[7] = rng.choice([-1, -5, -50])
-        P = rng.choice([1, 2, 2])   # P >= 3 has a scheduling-dependent defect of its own: see drv_thread_stress
+        P = rng.choice([1, 2, 2, 3, 4])   # (P >= 3 was excluded until the WorkFree defect F17 was repaired, d0e97e1)
         call = rng.choice(["gssvx", "gssvx", "gstrf"])
         ba = rng.choice([0, 0, 4, 1, 3, 7])
         # first: the inputs of MemInit for this matrix
@@ -541,14 +553,20 @@ def drv_workspace_sweep(ctx, tools, rng, prec, stats, flavor="hooks"):
                pre[-2] + rng.choice([-1, 1]), pre[-3] + rng.choice([-1, 1, 8]), pre[10] + rng.choice([-8, 0, 8]), pre[9] + 4, pre[5], 64, 1}
         if not quick:
             lws |= {p + d for p in pre for d in (-1, 1)} | {total // 2, total * 3 // 4, total + 16 + (P - 1) * (isz + dsz) + 8}
+        tightlo, tighthi = total + 16 + (P - 1) * (isz + dsz), total + 16 + P * (isz + dsz) + 16
         for lw in sorted(x for x in lws if x > 0):
-            jobs.append((call, P, lw, ba, mat, n, env, pr))
+            # buffers in which the LAST worker's arrays just do or do not fit are run several times (P >= 2): whether two workers
+            # reach ?user_malloc together depends on the schedule (random delay before every lock)
+            for _rep in range(6 if (P >= 2 and tightlo <= lw <= tighthi) else 1):
+                jobs.append((call, P, lw, ba, mat, n, env, pr))
         jobs.append(("gssvx", P, -1, ba, mat, n, env, pr))      # the workspace query through the expert driver
     if not jobs:
         return
     # the query runs with L.Store = U.Store = NULL: it must not touch them
     text = "".join(drv_case("j%d" % i, j[0], j[1], j[2], j[4], j[5], balign=j[3], env=j[6], poison=1 if j[2] == -1 else 0) for i, j in enumerate(jobs))
     # every mutex lock of the library is preceded by a random delay: two workers reach ?user_malloc / WorkInit together
+    if os.environ.get("VERIF_DEBUG_C14"):
+        open("/tmp/c14_drv_batch_%s_%s.txt" % (prec, flavor), "w").write(text)
     out = parse_drv(run_cases(exe, text, alarm=30, timeout=1800, jitter=300))
     # model predictions
     mtext = ""
